@@ -572,14 +572,20 @@ class C20(Check):
 
     # ---------------------------------------------------------------- generation
     def gen(self, tier, rng):
-        L = 4 if tier == "quick" else 6
+        # quick: all histories up to length 3, every length-4 history that contains stop-after-start, and a
+        # seeded sample of longer ones (each history costs real waiting time: ~0.1 s per stop)
+        L = 3 if tier == "quick" else 6
         for kind in ("tftp", "http"):
             for n in range(1, L + 1):
                 for h in itertools.product((START, STOP, REQUEST), repeat=n):
                     yield {"kind": "seq", "srv": kind, "h": list(h)}
-            for _ in range(40 if tier == "quick" else 0):
-                n = rng.choice([5, 6])
-                yield {"kind": "seq", "srv": kind, "h": [rng.choice((START, STOP, REQUEST, START, STOP)) for _ in range(n)]}
+            if tier == "quick":
+                for h in itertools.product((START, STOP, REQUEST), repeat=4):
+                    if any(h[i] == START and STOP in h[i + 1:] for i in range(4)) and h.count(REQUEST) <= 1:
+                        yield {"kind": "seq", "srv": kind, "h": list(h)}
+                for _ in range(16):
+                    n = rng.choice([5, 6])
+                    yield {"kind": "seq", "srv": kind, "h": [rng.choice((START, STOP, REQUEST, START, STOP)) for _ in range(n)]}
         # transfers
         for so in (1, 0):
             for hres in ("file", "tftperror", "exception"):
@@ -604,7 +610,7 @@ class C20(Check):
                         if a <= b:
                             small = len(a) + len(b) <= 2
                             yield {"kind": "conc", "srv": kind, "pre": pre, "ops": [a, b],
-                                   "bound": (2 if small else 1) if tier == "quick" else (3 if small and a != b else 2)}
+                                   "bound": (2 if small and a != b else 1) if tier == "quick" else (3 if small and a != b else 2)}
                 for ops in ([[1], [0], [1]], [[0], [0], [1]], [[1], [0], [0]], [[1, 0], [0], [1]]):
                     yield {"kind": "conc", "srv": kind, "pre": pre, "ops": ops, "bound": 1 if tier == "quick" else 2}
                 yield {"kind": "conc", "srv": kind, "pre": pre, "ops": [[1], [0], [1], [0]],
